@@ -205,6 +205,23 @@ func scenPayouts(rep *Report, tier string, seed int64) {
 			reqs = append(reqs, q)
 		}
 		pays := set.Payouts()
+		// C01: the split is a function of the request set — repeated evaluation (each one ranges
+		// over the request map in a fresh order) must give the same answer
+		for rep2 := 0; rep2 < 6; rep2++ {
+			again := set.Payouts()
+			same := len(again) == len(pays)
+			for kx, v := range pays {
+				if again[kx] != v {
+					same = false
+				}
+			}
+			if !same {
+				path := WriteReplay(rep.Property, "payouts-nondeterministic", Replay{Property: rep.Property, Scenario: "payouts", Seed: seed,
+					What: "ConversionSupplySet.Payouts gave two different answers for one request set", Extra: map[string]interface{}{"bank": bank, "requests": fmt.Sprint(reqs), "first": fmt.Sprint(pays), "second": fmt.Sprint(again)}})
+				rep.Violate("payouts:nondeterministic", fmt.Sprintf("bank %d, %d requests: repeated Payouts() differ", bank, len(reqs)), path)
+				break
+			}
+		}
 		keys := make([]string, 0, len(pays))
 		for kx := range pays {
 			keys = append(keys, kx)
@@ -294,7 +311,9 @@ func scenPayouts(rep *Report, tier string, seed int64) {
 		}
 		maxY, _ := conversions.Convert(1, in, ir, ir, pr, pr)
 		y := int64(0)
-		if maxY > 0 {
+		if maxY == math.MaxInt64 {
+			y = r.Int63()
+		} else if maxY > 0 {
 			y = r.Int63n(maxY + 1)
 		}
 		if r.Intn(20) == 0 {
